@@ -123,8 +123,7 @@ fn hyphenate_impl(hyphenater: &Hyphenator, list: &[ds::Horizontal]) -> Vec<ds::H
                     out.push(elem.clone());
                 }
                 Action::Abort => {
-                    i += 1;
-                    out.push(elem.clone());
+                    // The node is not consumed: if it is a glue node it may start the next word.
                     break None;
                 }
             }
